@@ -57,10 +57,12 @@ class QFn:
         self.purebool = False
         self.mut_legs = any(k in src for k in ("self.legs.insert(", "self.legs.append(", "del self.legs[")) or any(
             isinstance(n_, ast.Assign) and isinstance(n_.targets[0], ast.Subscript) and ast.unparse(n_.targets[0]).startswith("self.legs[") for n_ in ast.walk(node))
-        self.needs_check = "self.is_check" in src
+        self.needs_check = "self.is_check" in src or any(f.needs_check and ("self.%s(" % f.name) in src for f in tr.fns.values())
+        self.mut_legs = self.mut_legs or any(f.mut_legs and ("self.%s(" % f.name) in src for f in tr.fns.values())
         if self.needs_check: self.params.insert(1 if self.needs_legs else 0, ("self_is_check", "bool"))
         if self.mutator and self.mut_legs:
             self.retnames = ["self_legs"]; self.ret = ["legs"]
+        elif r == "PauliString | None": self.ret = ["ps"]
         elif r == "int": self.ret = ["int"]
         elif r == "tuple[int, int]": self.ret = ["int", "int"]
         elif self.mutator:
@@ -223,6 +225,7 @@ class QFn:
             return self.guard(g, "(let v_out_ := v_out_ ++ [%s] in %s)" % (c, R(env)))
         if isinstance(s, ast.Return):
             if s.value is None: return self.ret_default(env)
+            if isinstance(s.value, ast.Constant) and s.value.value is None and self.ret == ["ps"]: return "FNone"
             if self.purebool:
                 cs = self.cond(s.value, env)
                 if len(cs) != 1 or cs[0][1] or cs[0][2] is not None: bad(s, "a bool function that can raise")
@@ -310,6 +313,11 @@ class QFn:
                     if env.get(nm, t) != t: bad(s, "%s changes type" % nm)
                     env2[nm] = t
                 none = "FNone"
+                if fn.ret == ["ps"]:
+                    nx = rest[0] if rest else None
+                    if not (isinstance(nx, ast.Expr) and isinstance(nx.value, ast.Call) and ast.unparse(nx.value.func) == "self.append" and len(nx.value.args) == 2
+                            and isinstance(nx.value.args[1], ast.Name) and nx.value.args[1].id == names[0] and len(rest) == 1): bad(s, "use of a possibly-None result")
+                    none = 'FRaised (EUser "MorphFactoryException"%string)'      # append(v, None): find(None) is (-1, -1): "No vertex"
                 if fn.ret == ["ps", "list"]:
                     # a pair of Nones: the next statement must be <list>.remove(<first name>), which raises ValueError
                     nx = rest[0] if rest else None
@@ -329,7 +337,11 @@ class QFn:
             if fn is not None:
                 if not fn.mutator: bad(s, "result of %s dropped" % fn.name)
                 args, g = self.call_args(fn, s.value, env)
-                lists = [a.id for a, (_, t) in zip(s.value.args, fn.params) if t == "list"]
+                if fn.mut_legs:
+                    return self.guard(g, "(match %s %s with FRet r_ => let v_self_legs := r_ in %s %s)" % (fn.coq, " ".join(args), R(env), PROP))
+                if fn.ret == ["unit"]:
+                    return self.guard(g, "(match %s %s with FRet _ => %s %s)" % (fn.coq, " ".join(args), R(env), PROP))
+                lists = [a.id for a, (_, t) in zip(s.value.args, [p_ for p_ in fn.params if p_[0] not in ("self_legs", "self_is_check")]) if t == "list"]
                 if len(set(lists)) != len(lists): bad(s, "one list passed twice")
                 return self.guard(g, "(match %s %s with FRet r_ => let %s := r_ in %s %s)" % (fn.coq, " ".join(args), ("'" if len(lists) > 1 else "") + pat("v_" + n for n in lists), R(env), PROP))
             if isinstance(f.value, ast.Name) and env.get(f.value.id) == "list":
@@ -452,13 +464,16 @@ class QFn:
         return None
 
     def call_args(self, fn, v, env):
-        fparams = [p_ for p_ in fn.params if p_[0] != "self_legs"]
+        fparams = [p_ for p_ in fn.params if p_[0] not in ("self_legs", "self_is_check")]
         if len(v.args) != len(fparams): bad(v, "arity of %s" % fn.name)
         cs, gs = ([self.fuelname] if fn.fuel else []), []
         if fn.fuel: self.fuel = True
         if fn.needs_legs:
             if "self_legs" not in env: bad(v, "self.legs needed by %s" % fn.name)
             cs.append("v_self_legs")
+        if fn.needs_check:
+            if "self_is_check" not in env: bad(v, "self.is_check needed by %s" % fn.name)
+            cs.append("v_self_is_check")
         for a, (_, pt) in zip(v.args, fparams):
             if fn.mutator and pt == "list" and not isinstance(a, ast.Name): bad(v, "a list argument that is changed in place must be a name")
             c, t, g = self.expr(a, env)
@@ -500,7 +515,7 @@ class QFn:
 class QueueTranslator:
     WANT = ["_get_anti_commutates", "_get_max_connected", "_append_to_queue", "_get_queue",
             "is_empty_legs", "get_vertices", "_gen_one_legs", "get_one_vertices", "check_dependency_one_leg",
-            "_find_in_leg", "find", "is_included", "append", "remove", "replace"]
+            "_find_in_leg", "find", "is_included", "append", "remove", "replace", "is_empty", "get_center", "append_to_center"]
     HEADER = """(* GENERATED by tools/py2coq.py (py2coq_queue.py) from src/paulie/classifier/morph_factory.py — do not edit *)
 From PauLieRefine Require Import PySem.
 From PauLie Require Import Pauli Collection.
